@@ -115,12 +115,9 @@ if os.environ.get("VERIF_CHILD_IMPORTS") == "reverse":
         _importlib.import_module("psec." + _m)
     exec("from psec import *", {})
 import psec  # noqa: E402
-if os.environ.get("VERIF_CHILD_IMPORTS") == "reverse":
-    # ... and the helper modules reloaded in place afterwards (an auto-reloading development server does this)
-    import importlib as _importlib2
-    for _m in ("tools", "des", "aes", "mac"):
-        _importlib2.reload(sys.modules["psec." + _m])
-
+# (No `importlib.reload` of single modules here: a first version of this mode reloaded tools / des / aes / mac in place, which
+# makes every object another module bound at import - an Enum member, a function - a stale one. Binding such constants at
+# import is an ordinary, harmless way to write Python (refactoring drill R11), and no property speaks of reloading.)
 
 def coverage_report():
     """per source file: executable lines (from the compiled code objects), lines executed in this process, lines missed"""
@@ -899,11 +896,29 @@ def recheck_sample(cases, rng, limit=600):
                 if [bytes(a) if isinstance(a, bytearray) else None for a in ba] != before:
                     c.impl_fail.append(f"{fn} modified a bytearray argument (call {attempt} with mutable buffers)")
                     break
+                # ... and usable: while the caller still holds the result or the exception (with its traceback), the buffers must
+                # not be left exported - a view kept alive by a frame makes every resize of the caller's bytearray a BufferError
+                locked = buffers_locked(ba)
+                if locked:
+                    c.impl_fail.append(f"{fn} left a bytearray argument locked against resizing after {'returning' if r2.ok else 'raising ' + type(r2.exc).__name__} ({locked})")
+                    break
                 got2 = canon_impl(r2, tok)
                 if got2 != want:
                     c.impl_fail.append(f"{fn}: call {attempt} with the same arguments held in bytearray buffers returned `{got2[:120]}`, `{want[:120]}` with bytes")
                     break
     return n
+
+
+def buffers_locked(args):
+    """first bytearray among `args` that cannot be resized (BufferError: an export - a memoryview - of it is still alive), or None"""
+    for a in args:
+        if isinstance(a, bytearray):
+            try:
+                a.append(0)
+                a.pop()
+            except BufferError as e:
+                return str(e)
+    return None
 
 
 CHILD_CONFIGS = [
@@ -914,7 +929,7 @@ CHILD_CONFIGS = [
     ("python -X dev -X utf8, another hash seed, C locale, reverse import order, shallow stack", ["-X", "dev", "-X", "utf8"],
      {"PYTHONHASHSEED": "4242", "LC_ALL": "C", "LANG": "C", "TZ": "Pacific/Kiritimati", "VERIF_CHILD_IMPORTS": "reverse", "VERIF_CHILD_STACK": "70"},
      "development mode, UTF-8 mode, a fixed hash seed unlike the parent's, a numeric locale that groups digits (built with localedef), an unusual time zone, "
-     "`psec.tr31` imported before the modules it uses, `from psec import *`, the helper modules reloaded in place, and only seventy frames of stack left "
+     "`psec.tr31` imported before the modules it uses, `from psec import *`, and only seventy frames of stack left "
      "for each call (the unchanged library needs fewer than twenty)"),
 ]
 
